@@ -128,16 +128,20 @@ Inductive diag :=
 | DEnumAlias               (* enumer/str.go:35 *)
 | DEnumNonInt              (* enumer/str.go:89 *)
 | DEnumNotIntValue         (* enumer/str.go:93 *)
+| DEnumNotExists           (* enumer/generator.go:94 *)
 | DRestNotExists           (* restclient/cook.go:180 *)
 | DRestParamType           (* restclient/paramhandler.go:29 *)
-| DRestAmbiguousBody       (* restclient/paramhandler.go:117 *)
+| DRestAmbiguousBody       (* restclient/paramhandler.go setBodyParamName *)
+| DRestAmbiguousQuery      (* restclient/paramhandler.go handleMapType *)
+| DRestNeedsBody           (* restclient/cook.go: POST/PUT/PATCH without a struct parameter *)
 | DRestBadPath             (* restclient/cook.go:264 *)
 | DRestFewResults          (* restclient/cook.go:141 *)
 | DRestManyResults         (* restclient/cook.go:144 *)
 | DRestSecondToLast        (* restclient/cook.go:149 *)
 | DRestLast                (* restclient/cook.go:153 *)
 | DRestNamedResults        (* restclient/cook.go:159 *)
-| DRestReturnType          (* restclient/cook.go:319 *)
+| DRestReturnType          (* restclient/cook.go getReturnTypeName default *)
+| DRestArrayReturn         (* restclient/cook.go getReturnTypeName: [N]T *)
 | DRestExtract             (* restclient/paramhandler.go:71 *)
 | DMapSrcNotExists         (* mapper/generator.go:174 *)
 | DMapDestNotExists        (* mapper/generator.go:179 *)
@@ -149,6 +153,7 @@ Inductive diag :=
 | DExecTemplate            (* generatorbase.go:394 *)
 | DFormatSource            (* generatorbase.go:407 *)
 | DMergeSources            (* generatorbase.go:375 *)
+| DDupOutput               (* generatorbase.go:368 two selected types written to one file *)
 | DCreateTemp              (* main.go:107 *)
 | DWriteTemp               (* main.go:113 *)
 | DRename                  (* main.go:120 *)
@@ -211,7 +216,8 @@ Inductive texpr :=
 | TId (n : string)                 (* identifier *)
 | TSel (q n : string)              (* q.n *)
 | TStar (t : texpr)                (* *t *)
-| TArr (t : texpr)                 (* []t or [N]t : *ast.ArrayType *)
+| TArr (t : texpr)                 (* []t : *ast.ArrayType without length *)
+| TArrN (t : texpr)                (* [N]t : *ast.ArrayType with a length *)
 | TMap (k v : texpr)               (* map[k]v *)
 | TFunc                            (* func(...) ... *)
 | TChan (t : texpr)                (* chan t *)
@@ -230,7 +236,7 @@ Record param := { pa_names : list string; pa_type : texpr }.
 Inductive mdoc :=
 | MDNone                           (* field.Doc == nil *)
 | MDBad                            (* a comment the request regexp does not match *)
-| MDReq (path : string).           (* shoot: <Verb>(<path>) ; path = the raw text between the parentheses *)
+| MDReq (verb path : string).      (* shoot: <Verb>(<path>) ; path = the raw text between the parentheses *)
 
 (* what go/types says about an embedded element of an interface *)
 Inductive iembed :=
@@ -593,12 +599,12 @@ Definition load_package (i : input) (fl : flags) : res loaded :=
 Definition local_tspecs (ls : list ldecl) : list tspec :=
   flat_map (fun l => match l with LType s => s | LConst _ => [] end) ls.
 
-(* the TypeSpec nodes ast.Inspect meets in a file, in source order; the flag
-   says whether the spec is at package level *)
+(* the TypeSpec nodes shoot.InspectTopLevel meets in a file, in source order: package-level
+   declarations only (function bodies are never entered); the flag is kept for the callers and is
+   always true *)
 Definition decl_tspecs (d : decl) : list (tspec * bool) :=
   match d with
   | DType s => map (fun t => (t, true)) s
-  | DFunc f => match fn_body f with Some ls => map (fun t => (t, false)) (local_tspecs ls) | None => [] end
   | _ => []
   end.
 Definition file_tspecs (f : file) : list (tspec * bool) := flat_map decl_tspecs (f_decls f).
@@ -726,17 +732,13 @@ Definition new_list (fl : flags) (ld : loaded) : list string :=
 
 (* --------------------------------------------------------------- enum *)
 
-(* the GenDecl nodes of a file in source order, function bodies included *)
+(* the GenDecl nodes InspectTopLevel meets in a file, in source order (package level only) *)
 Inductive gdecl := GType (s : list tspec) | GConst (s : list vspec).
 Definition decl_gdecls (d : decl) : list gdecl :=
   match d with
   | DType s => [GType s]
   | DConst s => [GConst s]
-  | DFunc f => match fn_body f with
-               | Some ls => map (fun l => match l with LType s => GType s | LConst s => GConst s end) ls
-               | None => []
-               end
-  | DComment _ => []
+  | _ => []
   end.
 Definition file_gdecls (f : file) : list gdecl := flat_map decl_gdecls (f_decls f).
 
@@ -778,10 +780,10 @@ Fixpoint enum_gdecls (tops : list tspec) (T : string) (l : list gdecl) (n : nat)
   end.
 
 (* makeStr + the NameList test of MakeData: true = data produced *)
-Definition enum_make (ld : loaded) (T : string) : res bool :=
+Definition enum_make (fl : flags) (ld : loaded) (T : string) : res bool :=
   let tops := top_tspecs (ld_files ld) in
   do n <- enum_gdecls tops T (flat_map file_gdecls (ld_files ld)) 0;
-  Ok (negb (Nat.eqb n 0)).
+  if Nat.eqb n 0 then (if fl_specified fl then fatal DEnumNotExists else Ok false) else Ok true.
 
 (* go/types on a type spec: its underlying type is an integer basic type *)
 Definition spec_under_int (tops : list tspec) (t : tspec) : bool :=
@@ -828,36 +830,48 @@ Definition sel_named (q n : string) : bool :=
   ((q =? "http") && mem n ["Response"; "Header"; "Request"; "Client"]) ||
   ((q =? "time") && mem n ["Duration"; "Time"]).
 
-(* handleExpr; body = a body parameter has been bound already.  A struct
-   parameter declared in the same file makes handleStruct re-parse the package
-   directory with parser.ParseDir, which fails when a *.go entry cannot be
-   opened (baddir: a dangling symbolic link) *)
-Fixpoint rest_param (baddir : bool) (f : file) (t : texpr) (body : bool) : res bool :=
+(* isPkgStructType(name, file): the first package-level type spec of that name in the same
+   file, or in any other file of the package, is a struct *)
+Definition is_pkg_struct (name : string) (f : file) (fs : list file) : bool :=
+  is_struct_type name f || existsb (is_struct_type name) fs.
+
+Definition is_query_verb (m : string) : bool := (m =? "GET") || (m =? "DELETE").
+Definition is_body_verb (m : string) : bool := mem m ["POST"; "PUT"; "PATCH"].
+
+(* handleExpr; the state is (a body parameter is bound, a query map is bound).  A struct
+   parameter makes handleStruct re-parse the package directory with parser.ParseDir, which fails
+   when a *.go entry cannot be opened or parsed (baddir) *)
+Fixpoint rest_param (baddir : bool) (fs : list file) (f : file) (m : string) (t : texpr) (st : bool * bool)
+  : res (bool * bool) :=
+  let '(body, qmap) := st in
   match t with
   | TSel q n =>
-      if negb (sel_named q n) then Ok body
-      else if (q =? "context") && (n =? "Context") then Ok body
-      else if body then fatal DRestAmbiguousBody else Ok true
+      if negb (sel_named q n) then Ok st
+      else if (q =? "context") && (n =? "Context") then Ok st
+      else if body then fatal DRestAmbiguousBody else Ok (true, qmap)
   | TId n =>
-      if is_struct_type n f then
-        (if body then fatal DRestAmbiguousBody else if baddir then fatal DRestExtract else Ok true)
-      else Ok body
-  | TMap _ _ => Ok body
-  | TStar x => rest_param baddir f x body
+      if is_pkg_struct n f fs then
+        (if body then fatal DRestAmbiguousBody else if baddir then fatal DRestExtract else Ok (true, qmap))
+      else Ok st
+  | TMap _ _ =>
+      if is_query_verb m then (if qmap then fatal DRestAmbiguousQuery else Ok (body, true)) else Ok st
+  | TStar x => rest_param baddir fs f m x st
   | _ => fatal DRestParamType
   end.
 
 (* for _, name := range param.Names { handleExpr(param.Type, name, ...) } *)
-Fixpoint rest_names (baddir : bool) (f : file) (t : texpr) (names : list string) (body : bool) : res bool :=
+Fixpoint rest_names (baddir : bool) (fs : list file) (f : file) (m : string) (t : texpr) (names : list string)
+         (st : bool * bool) : res (bool * bool) :=
   match names with
-  | [] => Ok body
-  | _ :: l => do b <- rest_param baddir f t body; rest_names baddir f t l b
+  | [] => Ok st
+  | _ :: l => do b <- rest_param baddir fs f m t st; rest_names baddir fs f m t l b
   end.
 
-Fixpoint rest_params (baddir : bool) (f : file) (ps : list param) (body : bool) : res bool :=
+Fixpoint rest_params (baddir : bool) (fs : list file) (f : file) (m : string) (ps : list param) (st : bool * bool)
+  : res (bool * bool) :=
   match ps with
-  | [] => Ok body
-  | p :: r => do b <- rest_names baddir f (pa_type p) (pa_names p) body; rest_params baddir f r b
+  | [] => Ok st
+  | p :: r => do b <- rest_names baddir fs f m (pa_type p) (pa_names p) st; rest_params baddir fs f m r b
   end.
 
 (* exprToString(expr) == "*http.Response" / "error" *)
@@ -876,54 +890,65 @@ Definition path_ok (p : string) : bool :=
     negb (contains quote (stake (n - 2) (sdrop 1 p)))
   else negb (p =? "").
 
-Definition rest_method (baddir : bool) (f : file) (doc : mdoc) (params results : list param) : res unit :=
+Definition rest_method (baddir : bool) (fs : list file) (f : file) (doc : mdoc) (params results : list param) : res unit :=
   match doc with
   | MDNone => Ok tt                                  (* warning, method ignored *)
   | MDBad => Ok tt                                   (* warning, method ignored *)
-  | MDReq path =>
+  | MDReq verb path =>
+      let m := upper verb in
       do_ guard (path_ok path) DRestBadPath;
-      do_ rest_params baddir f params false;
-      let n := List.length results in
+      do st <- rest_params baddir fs f m params (false, false);
+      do_ guard (negb (is_body_verb m) || fst st) DRestNeedsBody;
+      (* resultValues: one entry per returned value; `a, b T` declares two *)
+      let vals := flat_map (fun r => match pa_names r with
+                                     | [] => [("", pa_type r)]
+                                     | ns => map (fun x => (x, pa_type r)) ns
+                                     end) results in
+      let n := List.length vals in
       do_ guard (Nat.leb 2 n) DRestFewResults;
       do_ guard (Nat.leb n 3) DRestManyResults;
-      do_ guard (is_http_response (pa_type (nth (n - 2) results {| pa_names := []; pa_type := TLit |}))) DRestSecondToLast;
-      do_ guard (is_error_id (pa_type (nth (n - 1) results {| pa_names := []; pa_type := TLit |}))) DRestLast;
+      do_ guard (is_http_response (snd (nth (n - 2) vals ("", TLit)))) DRestSecondToLast;
+      do_ guard (is_error_id (snd (nth (n - 1) vals ("", TLit)))) DRestLast;
       if Nat.eqb n 3 then
-        match results with
-        | r :: _ =>
-            do_ guard (match pa_names r with [] => true | _ => false end) DRestNamedResults;
-            guard (match pa_type r with TStar _ | TArr _ | TMap _ _ => true | _ => false end) DRestReturnType
+        match vals with
+        | (name, t) :: _ =>
+            do_ guard (name =? "") DRestNamedResults;
+            match t with
+            | TStar _ | TArr _ | TMap _ _ => Ok tt
+            | TArrN _ => fatal DRestArrayReturn
+            | _ => fatal DRestReturnType
+            end
         | [] => Ok tt
         end
       else Ok tt
   end.
 
-Definition rest_iface (baddir : bool) (f : file) (items : list iitem) : res unit :=
+Definition rest_iface (baddir : bool) (fs : list file) (f : file) (items : list iitem) : res unit :=
   each (fun it => match it with
                   | IEmbed _ => Ok tt
-                  | IMethod _ doc ps rs => rest_method baddir f doc ps rs
+                  | IMethod _ doc ps rs => rest_method baddir fs f doc ps rs
                   end) items.
 
-Fixpoint rest_walk (baddir : bool) (T : string) (f : file) (l : list (tspec * bool)) (found : bool) : res bool :=
+Fixpoint rest_walk (baddir : bool) (fs : list file) (T : string) (f : file) (l : list (tspec * bool)) (found : bool) : res bool :=
   match l with
   | [] => Ok found
   | (t, _) :: r =>
       if rest_test T t then
         match ts_body t with
-        | BIface items => do_ rest_iface baddir f items; rest_walk baddir T f r true
-        | _ => rest_walk baddir T f r found
+        | BIface items => do_ rest_iface baddir fs f items; rest_walk baddir fs T f r true
+        | _ => rest_walk baddir fs T f r found
         end
-      else rest_walk baddir T f r found
+      else rest_walk baddir fs T f r found
   end.
 
-Fixpoint rest_files (baddir : bool) (T : string) (fs : list file) (found : bool) : res bool :=
+Fixpoint rest_files (baddir : bool) (all : list file) (T : string) (fs : list file) (found : bool) : res bool :=
   match fs with
   | [] => Ok found
-  | f :: r => do b <- rest_walk baddir T f (file_tspecs f) found; rest_files baddir T r b
+  | f :: r => do b <- rest_walk baddir all T f (file_tspecs f) found; rest_files baddir all T r b
   end.
 
 Definition rest_make (baddir : bool) (ld : loaded) (T : string) : res bool :=
-  do found <- rest_files baddir T (ld_files ld) false;
+  do found <- rest_files baddir (ld_files ld) T (ld_files ld) false;
   do_ guard found DRestNotExists;
   Ok true.
 
@@ -1167,7 +1192,7 @@ Definition has_dangling_go (i : input) (fl : flags) : bool :=
 Definition make_data (i : input) (fl : flags) (ld : loaded) (T : string) : res bool :=
   match fl_sub fl with
   | CNew => new_make fl ld T
-  | CEnum => enum_make ld T
+  | CEnum => enum_make fl ld T
   | CRest => rest_make (has_dangling_go i fl) ld T
   | CMap => map_make fl ld T
   end.
@@ -1222,7 +1247,9 @@ Fixpoint gen_loop (i : input) (fl : flags) (ld : loaded) (fmap : list (string * 
           match rc, fl_raw fl with
           | RFormatErr, false => fatal DFormatSource
           | _, _ =>
-              if fl_sep fl then gen_loop i fl ld fmap r (sep ++ [file_name fl ld fmap T])%list merged
+              if fl_sep fl then
+                (if mem (file_name fl ld fmap T) sep then fatal DDupOutput
+                 else gen_loop i fl ld fmap r (sep ++ [file_name fl ld fmap T])%list merged)
               else gen_loop i fl ld fmap r sep (S merged)
           end
       end
